@@ -29,6 +29,66 @@ CHECKS = {
         note=NOTE_COMMON + "Modelled rather than verified: Lark, Python re; 'no other exception escapes' is observed on the generated strings (exhaustive for short ones), proved only for the model.",
         technique="Lean 4 proof (recogniser = grammar, simulation of value machine by its skeleton) + outcome-class correspondence",
     ),
+    "C04": dict(
+        category="proof",
+        text=("Lean: eval_char (one induction) shows that on the documented domain the model of RequirementConstraintTransformer succeeds exactly on structurally "
+              "valid trees and then has state = denote (the 4-line compositional semantics) for every tree and assignment; C04_outcome lifts this to the reported "
+              "(fulfilled, conditional) pair of requirement_constraint_evaluation. The model (node classes, both expression builders) is tied to the code by a "
+              "differential run on trees (exhaustive small shapes x all 3^k assignments + random), gating on outcome and error class, and by C03's extracted operator tables."),
+        design_ref="§5 C04",
+        note=NOTE_COMMON + "Modelled rather than verified: lark Transformer dispatch, the inject plumbing, user evaluators (assumed functions of the key).",
+        technique="Lean 4 proof by structural induction over the expression tree + differential correspondence on trees",
+    ),
+    "C05": dict(
+        category="proof",
+        text=("Lean: one-hole-context lemmas (Rel/Weak closed under every surrounding context) give, for every valid tree, every position and every assignment: swapping "
+              "operands of U/O/X, and-ing a hint onto the whole or onto any U/O/X operand (either side), attaching a format constraint to any requirement-bearing "
+              "sub-expression keep domain membership and validity and leave denote (hence, by C04, the outcome) unchanged; denote is monotone in the information order, "
+              "so definite outcomes survive every resolution of UNKNOWN. The bracket clause is proved only as finding K1 (witness by decide); outside K1's class it is "
+              "checked on the implementation through the real parser. Same model/correspondence as C04; all transformations are also run on the implementation."),
+        design_ref="§5 C05",
+        note=NOTE_COMMON + "Partial: 'redundant brackets keep validity' is a known finding (K1) and is not a theorem; string-level bracket invariance rests on C01 + the correspondence.",
+        technique="Lean 4 proof (context induction, monotonicity of the four-valued operators) + transformation predicates on the implementation",
+    ),
+    "C06": dict(
+        category="proof",
+        text=("Lean: C06_structural — for every tree of the documented domain and EVERY assignment the model raises the invalid-expression error iff the structural "
+              "criterion invalidAt holds (so states never matter: C06_all_or_none), C06_neutral_iff, C06_evaluation (whole requirement_constraint_evaluation), "
+              "C06_no_keys. Tied to the code by the tree correspondence (error class gates) and by running is_valid_expression on rendered single- and multi-part AHB "
+              "expressions against the structural criterion evaluated on the tree Lark produced."),
+        design_ref="§5 C06",
+        note=NOTE_COMMON + "Modelled rather than verified: is_valid_expression's gather over generated results (observed), BaseException-ness of InvalidExpressionError (observed).",
+        technique="Lean 4 proof by structural induction + error-class correspondence + validity-check predicate",
+    ),
+    "C07": dict(
+        category="proof",
+        text=("Lean: the collected expression is modelled as the AST whose rendering is character-for-character what the f-strings of the builder produce; "
+              "C07_meaning: for every valid tree, requirement assignment and truth assignment its value equals the direct reading fcSem; C07_absent; C07_keys (only "
+              "format keys of the source); C07_reported. The tie compares, per case, presence, flat(parse) of the real string, its key set and its value under ALL 2^n "
+              "truth assignments (plus format_constraint_evaluation on the real string); the exact layout is compared as advisory and has never differed."),
+        design_ref="§5 C07",
+        note=NOTE_COMMON + "Partial: that the rendered string parses back to the AST (string-level well-formedness) is covered by C01's theorems only informally plus the correspondence; Python re.sub/strip are observed.",
+        technique="Lean 4 proof by structural induction over tree and builder AST + meaning correspondence under all truth assignments",
+    ),
+    "C08": dict(
+        category="proof",
+        text=("Lean: C08_value (evaluation succeeds and equals the Boolean value for every U/O/X tree and environment), C08_assoc (grouping irrelevant), C08_empty, "
+              "C08_msg_if (literal premise of the property), C08_msg_iff (with the converse premise made explicit), C08_default_message. Tied by a differential run of "
+              "evaluate_format_constraint_tree on exhaustive small trees x all assignments and of format_constraint_evaluation on rendered strings."),
+        design_ref="§5 C08",
+        note=NOTE_COMMON + "Modelled rather than verified: string-level precedence rests on C01; single-constraint evaluators are inputs.",
+        technique="Lean 4 proof by induction with a combinator-closed invariant + differential correspondence",
+    ),
+    "C09": dict(
+        category="proof",
+        text=("Lean: C09_normalise over the table extracted from the transformer callbacks for every ASCII case pattern of every spelling (60 entries, kernel-decided); "
+              "selection lemmas (first fulfilled part is returned with exactly its own indicator/outcome/hints/format result, else the last; single part unchanged; bare "
+              "indicator result). The AHB scanner model is the one of C02 (T1 classes, T2 grammar). Predicates on the implementation: written parts come back in order for "
+              "every spelling/case/whitespace pattern; the whole result equals the selected part's own evaluation obtained by evaluating that part alone."),
+        design_ref="§5 C09",
+        note=NOTE_COMMON + "Partial: the round-trip theorem scanAhb(concat(write parts)) = parts is not yet proved in Lean; it is checked against the implementation and the model on generated expressions.",
+        technique="Lean 4 proof over extracted table + list lemmas; part-wise predicate on the implementation; correspondence",
+    ),
     "C03": dict(
         category="proof",
         text=("All clauses of C03 are Lean theorems (29) stated about the operator tables extracted exhaustively from the running "
